@@ -25,7 +25,12 @@ def main():
     if ob is None:
         print(json.dumps(dict(error="unknown obligation %s" % req["obligation"])))
         return
-    out = replay_concrete(ob, req["model"])
+    if ob.kind == "ch":
+        from symx import chrun
+
+        out = chrun.replay(ob, req["model"])
+    else:
+        out = replay_concrete(ob, req["model"])
     print(json.dumps(out))
 
 
